@@ -32,7 +32,20 @@ GLOBAL_MUTATORS = ("mimetypes.add_type", "mimetypes.init", "os.environ", "os.chd
                    "logging.disable", "signal.signal", "atexit.register", "socket.setdefaulttimeout",
                    "ET.register_namespace", "ElementTree.register_namespace", "csv.field_size_limit",
                    "random.seed", "gc.disable", "gc.enable", "threading.setprofile", "sys.settrace", "sys.setprofile",
-                   "builtins.", "importlib.reload")
+                   "builtins.", "importlib.reload",
+                   # registries a module can extend at import time / first use, further interpreter-wide settings
+                   "codecs.register", "codecs.unregister", "encodings.aliases", "email.charset.add_", "charset.add_charset",
+                   "charset.add_alias", "charset.add_codec", "email.charset.CHARSETS", "email.charset.ALIASES", "email.charset.CODEC_MAP",
+                   "mimetypes.types_map", "mimetypes.suffix_map", "mimetypes.encodings_map", "mimetypes.common_types",
+                   "mimetypes.read_mime_types", "copyreg.", "atexit.unregister", "decimal.setcontext", "decimal.getcontext",
+                   "decimal.DefaultContext", "warnings.catch_warnings", "warnings.resetwarnings", "warnings.filters",
+                   "warnings.showwarning", "locale.resetlocale", "csv.register_dialect", "csv.unregister_dialect",
+                   "shutil.register_", "shutil.unregister_", "sys.excepthook", "sys.meta_path", "sys.path_hooks", "sys.setdlopenflags",
+                   "threading.excepthook", "threading.settrace", "threading.stack_size", "gc.set_threshold", "gc.freeze", "time.tzset",
+                   "resource.setrlimit", "tempfile.tempdir", "logging.addLevelName", "logging.setLoggerClass",
+                   "logging.setLogRecordFactory", "logging.captureWarnings", "etree.register_namespace",
+                   "xml.etree.ElementTree.register_namespace", "signal.alarm", "signal.setitimer", "random.setstate",
+                   "os.unsetenv", "os.fchdir")
 TEMP_CALLS = ("TemporaryDirectory", "NamedTemporaryFile", "TemporaryFile", "SpooledTemporaryFile", "mkdtemp", "mkstemp", "mktemp")
 MUTABLE_TYPES = ("dict", "list", "set", "OrderedDict", "defaultdict", "bytearray", "deque", "Counter", "ChainMap", "lock", "RLock")
 
@@ -70,9 +83,31 @@ def _functions(tree):
     return out
 
 
+def _alias_map(tree):
+    """local name -> dotted origin for `import x.y as z` / `from x import f [as g]` anywhere in the file, so that a setter
+    reached through an alias (`from sys import setrecursionlimit as srl`; `import sys as _sys`) is still recognised"""
+    al = {}
+    for n in ast.walk(tree):
+        if isinstance(n, ast.Import):
+            for a in n.names:
+                if a.asname and a.asname != a.name:
+                    al[a.asname] = a.name
+        elif isinstance(n, ast.ImportFrom) and n.module and not n.level:
+            for a in n.names:
+                al[a.asname or a.name] = n.module + "." + a.name
+    return al
+
+
+def _resolve(s, al):
+    head, dot, rest = s.partition(".")
+    name = head.split("(")[0]           # `getcontext().prec` -> head `getcontext()`
+    return al[name] + head[len(name):] + dot + rest if name in al else s
+
+
 def scan_file(rel):
     with open(os.path.join(REPO, rel), encoding="utf-8") as fh:
         tree = ast.parse(fh.read(), filename=rel)
+    _al = _alias_map(tree)
     mod_imports, modlevel = set(), set()
     for n in tree.body:
         if isinstance(n, (ast.Import, ast.ImportFrom)):
@@ -157,6 +192,10 @@ def scan_file(rel):
                 if any(s == k or s.endswith("." + k) for k in TEMP_CALLS):
                     temps.add((rel, fname, s.split(".")[-1], _temp_scoped(f, n)))
                     sites.add((rel, fname, "temp", s.split(".")[-1]))
+                if any(_resolve(s, _al).startswith(k) for k in GLOBAL_MUTATORS):
+                    sites.add((rel, fname, "globalcall", _resolve(s, _al)))
+            if isinstance(n, ast.Attribute) and isinstance(n.ctx, (ast.Store, ast.Del)):
+                s = _resolve(ast.unparse(n), _al)      # decimal.getcontext().prec = 50 ; warnings.showwarning = f
                 if any(s.startswith(k) for k in GLOBAL_MUTATORS):
                     sites.add((rel, fname, "globalcall", s))
             for_sub = n
@@ -170,7 +209,11 @@ def scan_file(rel):
             continue
         for c in ast.walk(n):
             if isinstance(c, ast.Call):
-                s = ast.unparse(c.func)
+                s = _resolve(ast.unparse(c.func), _al)
+                if any(s.startswith(k) for k in GLOBAL_MUTATORS):
+                    sites.add((rel, "<module>", "globalcall", s))
+            elif isinstance(c, (ast.Attribute, ast.Subscript)) and isinstance(c.ctx, (ast.Store, ast.Del)):
+                s = _resolve(ast.unparse(c.value if isinstance(c, ast.Subscript) else c), _al)
                 if any(s.startswith(k) for k in GLOBAL_MUTATORS):
                     sites.add((rel, "<module>", "globalcall", s))
     return sites, temps, lru, modlevel
